@@ -89,20 +89,40 @@ class OpenModel:
             return v
 
         def h_atomic_load(ex, st, callee, args, fn):
+            if isinstance(args[0], Ptr):
+                # the mapped file holds the same header the read() call delivered
+                off = args[0].off
+                if off == 12:
+                    return self.ver
+                if off == 14:
+                    return self.gen
+                if off == 8:
+                    return self.seg
+                raise EngineError('atomic load from the mapped segment at offset %d' % off)
             v = ex.deref(st, args[0]) if isinstance(args[0], Ref) else args[0]
             while isinstance(v, Struct) and len(v.f) == 1:
                 v = v.f[0]
             return v
-        return [(r'^libc::open$|(^|::)open$', h_open), (r'^libc::read$', h_read), (r'^libc::mmap$', h_mmap), (r'^libc::close$', h_close), (r'^libc::munmap$', h_munmap),
+        def h_read_rec(ex, st, callee, args, fn):
+            # the record area of the mapped file: arbitrary content
+            if not hasattr(self, 'rec'):
+                I = z3.Int
+                self.rec = Struct([Struct([I('rec_as_s'), I('rec_as_n')]), Struct([I('rec_va_s'), I('rec_va_n')]), I('rec_bound'), I('rec_drift'), I('rec_reserved'), Enum(I('rec_status'), {})])
+            return self.rec
+
+        def h_fence(ex, st, callee, args, fn):
+            return UNIT
+        return [(r'read_volatile$|ptr::read$', h_read_rec), (r'(^|::)(fence|compiler_fence)$', h_fence), (r'^libc::open$|(^|::)open$', h_open), (r'^libc::read$', h_read), (r'^libc::mmap$', h_mmap), (r'^libc::close$', h_close), (r'^libc::munmap$', h_munmap),
                 (r'(^|::)errno::errno$|^errno$', h_errno), (r'<impl str>::as_bytes$', h_as_bytes), (r'CStr::from_bytes_with_nul$', h_from_bytes),
                 (r'Atomic(::<\w+>)?::into_inner$', h_into_inner), (r'Atomic(::<\w+>)?::load$', h_atomic_load), (r'(^|::)CStr::as_ptr$', lambda ex, st, c, a, f: Opaque('cptr'))]
 
-    def run(self):
-        ex = Exec(self.prog, env=self.env())
+    def run(self, fn=None, args=None, extra_env=(), opaque=()):
+        ex = Exec(self.prog, env=list(extra_env) + self.env(), opaque_calls=list(opaque))
         ex.inline_drops = True
         ex.const_hooks = [(r'(^|::)MAP_FAILED$', Ptr('MAP_FAILED', 0)), (r'libc::(O_RDONLY|PROT_READ|MAP_SHARED|EINTR)$', z3.IntVal(0))]
-        fn = self.prog.find1('new', self_ty='ShmReader')
-        outs = ex.run(fn, [Opaque('path')], State())
+        fn = fn or self.prog.find1('new', self_ty='ShmReader')
+        ex.deref_hook = lambda ex_, st, p: h_deref(ex_, st, p, self)
+        outs = ex.run(fn, args if args is not None else [Opaque('path')], State())
         self.ex = ex
         return outs
 
@@ -122,6 +142,14 @@ class OpenModel:
             (self.seg < total, 2, None, None),
         ]
         return steps
+
+
+def h_deref(ex, st, p, om):
+    if p.off == 16:
+        for rx, h in ex.env:
+            if rx.startswith('read_volatile'):
+                return h(ex, st, 'read_volatile', [p], None)
+    raise EngineError('plain load from the mapped segment at offset %d' % p.off)
 
 
 def origin_text(v):
@@ -287,17 +315,27 @@ def conversions(ck, prog, seed):
     ck.absorb(pr, 'conversion: ')
 
 
-def confirm_recreate(ck, pr):
-    """the real ShmWriter::new over garbage: what does the re-created file look like?"""
+def confirm_recreate(ck, pr=None):
+    """the real ShmWriter::new over unusable files of several lengths: what does the re-created file look like?"""
     rp = common.Replay('debug')
-    out = rp.ask('recreate deadbeef00112233')
-    rp.close()
-    f = dict(x.split('=', 1) for x in out.split()[1:] if '=' in x) if out.startswith('ok') else {}
     want = '4e5a4d410002424348000000' + '0100' + '0000' + '00' * 56
-    if f.get('bytes') and f['bytes'] != want:
-        pr.handled = getattr(pr, 'handled', set()) | {n for n, m in pr.failed}
-        ck.violation('recreated-file-layout', 'after ShmWriter::new over a garbage file the file holds %d bytes %s..., documented: 72 bytes %s...' % (len(f['bytes']) // 2, f['bytes'][:40], want[:40]),
-                     {'cmd': 'recreate', 'native': out})
+    bad = []
+    outs = {}
+    for garbage in ('', 'deadbeef00112233', 'ab' * 72, 'cd' * 73, '11' * 200, '4e5a4d4100024243800000000000000000' + '77' * 111):
+        out = rp.ask('recreate ' + garbage)
+        outs[len(garbage) // 2] = out
+        f = dict(x.split('=', 1) for x in out.split()[1:] if '=' in x) if out.startswith('ok') else {}
+        if not f.get('bytes') and 'len' in f and f['len'] == '0':
+            f['bytes'] = ''
+        if 'bytes' in f and f['bytes'] != want:
+            bad.append('over an unusable file of %d bytes ShmWriter::new leaves %d bytes %s..., documented: 72 bytes %s...' % (len(garbage) // 2, len(f['bytes']) // 2, f['bytes'][:40], want[:40]))
+    rp.close()
+    ck.cov['native_recreate'] = {'files': len(outs), 'bad': len(bad)}
+    if bad:
+        if pr is not None:
+            pr.handled = getattr(pr, 'handled', set()) | {n for n, m in pr.failed}
+        ck.violation('recreated-file-layout', '; '.join(bad[:2]), {'cmd': 'recreate', 'native': outs})
+    return bad
 
 
 def wipe_image(ck, prog, seed):
@@ -337,6 +375,27 @@ def wipe_image(ck, prog, seed):
             raise EngineError('vec![x; n] with x != 0')
         return Struct([Opaque('vec_fill'), args[1]])
 
+    OO = ['read', 'write', 'append', 'truncate', 'create', 'create_new']
+
+    def h_oo_set(ex, st, callee, args, fn):
+        k = callee.rsplit('::', 1)[1]
+        r = args[0]
+        cur = ex.deref(st, r) if isinstance(r, Ref) else r
+        f = list(cur.f); f[OO.index(k)] = args[1]
+        new = Struct(f)
+        if isinstance(r, Ref):
+            ex.store(st, r.frame, (r.local, r.path), new)
+            return r
+        return new
+
+    def h_oo_open(ex, st, callee, args, fn):
+        r = args[0]
+        cur = ex.deref(st, r) if isinstance(r, Ref) else r
+        trunc = z3.simplify(cur.f[OO.index('truncate')]); wr = z3.simplify(cur.f[OO.index('write')]); cr = z3.simplify(z3.Or(cur.f[OO.index('create')], cur.f[OO.index('create_new')]))
+        mode = tuple(n for n, v in (('truncate', trunc), ('write', wr), ('create', cr)) if z3.is_true(v))
+        ev(st, 'file_create', mode)
+        return res(flags['create'], Opaque('file'))
+
     def h_pos(ex, st, callee, args, fn):
         total = z3.IntVal(0)
         for e in st.trace:
@@ -347,7 +406,10 @@ def wipe_image(ck, prog, seed):
            (r'(^|::)Path::to_str$', lambda ex, st, c, a, f: Enum(z3.If(parent_str, z3.IntVal(1), z3.IntVal(0)), {'Some': Struct([Opaque('parent_str')]), 'None': UNIT})),
            (r'^<str as PartialEq>::eq$', lambda ex, st, c, a, f: parent_empty),
            (r'(^|::)create_dir_all(::<.*>)?$', lambda ex, st, c, a, f: (ev(st, 'create_dir_all'), res(flags['mkdir']))[1]),
-           (r'(^|::)File::create(::<.*>)?$', lambda ex, st, c, a, f: (ev(st, 'file_create'), res(flags['create'], Opaque('file')))[1]),
+           (r'(^|::)File::create(::<.*>)?$', lambda ex, st, c, a, f: (ev(st, 'file_create', ('truncate',)), res(flags['create'], Opaque('file')))[1]),
+           (r'(^|::)OpenOptions::new$', lambda ex, st, c, a, f: Struct([z3.BoolVal(False)] * 6)),
+           (r'(^|::)OpenOptions::(read|write|append|truncate|create|create_new)$', h_oo_set),
+           (r'(^|::)OpenOptions::open(::<.*>)?$', h_oo_open),
            (r'WriteBytesExt>::write_u(16|32|64)', h_write_int), (r'Write>::write_all$', h_write_all), (r'(^|::)from_elem(::<.*>)?$', h_from_elem),
            (r'Seek>::stream_position$', h_pos), (r'(^|::)File::sync_all$', lambda ex, st, c, a, f: (ev(st, 'sync_all'), res(flags['sync']))[1])]
     ex = Exec(prog, env=env, opaque_calls=[r'Argument(::<.*>)?::new_debug', r'Arguments(::<.*>)?::new', r'(^|::)format$', r'must_use', r'io::Error::new', r'Error::new'])
@@ -386,9 +448,15 @@ def wipe_image(ck, prog, seed):
                 if isinstance(res, tuple):
                     confirm_recreate(ck, pr)
                 kinds = [e.kind for e in o.state.trace]
-                pr.prove('wipe() creates (truncates) the file before writing and syncs it at the end', pc, z3.BoolVal('file_create' in kinds and kinds.index('file_create') < kinds.index('file_write') and kinds[-1] == 'sync_all'), need_reach=False)
+                cre = [e for e in o.state.trace if e.kind == 'file_create']
+                r2 = pr.prove('wipe() creates AND truncates the file before writing (whatever its previous length, the result is the 72 bytes written) and syncs it at the end', pc,
+                              z3.BoolVal(len(cre) == 1 and 'truncate' in cre[0].args and kinds.index('file_create') < kinds.index('file_write') and kinds[-1] == 'sync_all'), need_reach=False)
+                if isinstance(r2, tuple):
+                    confirm_recreate(ck, pr)
             pr.prove('wipe() reports success only if every file operation succeeded', pc, z3.And([f for k, f in flags.items() if k != 'mkdir'] + [z3.Or(flags['mkdir'], z3.Not(has_parent), parent_empty)]), need_reach=True)
     pr.prove('wipe() has a success path', z3.BoolVal(True), z3.BoolVal(nok >= 1), need_reach=False)
+    if not any(k == 'recreated-file-layout' for k, d, p_ in ck.violations):
+        confirm_recreate(ck, pr)
     ck.absorb(pr, 'wipe: ')
     # a wiped file + ShmWriter::new's version store + one write() is a valid segment with generation 2 (C11: 0 -> 1 -> 2)
     from .seqlock_checks import header_validity
